@@ -230,7 +230,9 @@ def distancePointFromCurvedPlanes (coord : CoordSys R) (checkPoint nat : P3 R) (
         let dref := P2.distanceTo sph cl2d reference
         let abn : P2 R := ⟨cp.normal.x * dref, cp.normal.y * dref⟩
         let localRef : P2 R := ⟨abn.x * (1.0 : R) + cl2d.x, abn.y * (1.0 : R) + cl2d.y⟩
-        let refNormalSide := decide (P2.normSq (cl2d - localRef) < P2.normSq (cs2dTemp - localRef))
+        -- `(check − foot) · (local reference − foot) < 0` (was a comparison of distances to the local reference point; fixed upstream,
+        -- 'fix: slab and fault side test flipped for points farther from the trench than twice the dip point')
+        let refNormalSide := decide (P2.dot (cs2dTemp - cl2d) (localRef - cl2d) < 0.0)
         let pFirst ← idx pointList 0
         let pLast ← idx pointList (pointList.length - 1)
         let refPointSide := decide ((pLast.x - pFirst.x) * (reference.y - pFirst.y) - (reference.x - pFirst.x) * (pLast.y - pFirst.y) < 0.0)
